@@ -113,7 +113,7 @@ CHECKS = {
         level="model_checking", engine="seq",
         technique="explicit-state BFS over create/delete/failed-create/restart histories on the real MetaCDC with invariant + differential (fresh reload) oracle in every state",
         text="Every history of create (13 specification shapes), create with a store fault at the n-th call, delete and restart up to the depth bound is replayed on a fresh real MetaCDC (real etcd stores over fakeetcd); in every reached state the selections made by the real data-path and DDL-path functions are evaluated for a 3x3 universe of (database, collection) pairs against a reference, rejected requests must leave bookkeeping and store byte-identical, and the live bookkeeping must equal a fresh reload of the same store.",
-        note="Bounded: depth 3 (4 thorough), one target, <= 3 tasks, universe {default, db1, db2} x {a, b, c}. The replication entity is the light one (recording channel manager); connectivity probe skipped through the verif hook.",
+        note="Bounded: depth 4 (5 thorough), one target, <= 3 tasks, universe {default, db1, db2} x {a, b, c}. The replication entity is the light one (recording channel manager); connectivity probe skipped through the verif hook.",
         parts=[part("tasks", "server", ".", "TestVerifC10Tasks", shards=(16, 16), budget=(150, 1200))],
     ),
 }
